@@ -6,8 +6,10 @@ package main
 import (
 	"fmt"
 	"go/ast"
+	"go/constant"
 	"go/token"
 	"go/types"
+	"sort"
 	"strconv"
 	"strings"
 )
@@ -41,6 +43,7 @@ func c02(c *Ctx) {
 	c02R6(c)
 	c03R6(c)
 	mergeRule(c, "C08.R10")
+	c02R9(c)
 	// a pod's addresses are released together (shared rule): a leftover IPv6 of a deleted pod would be
 	// inherited by its same-named successor next to an IPv4 from another interface
 	c03R1(c)
@@ -669,4 +672,88 @@ func c02FamilyRoles(c *Ctx, rule string) {
 		}
 		c.Floor(rule, "consumers of both family indexes in syncPods", 2, nRole)
 	}
+}
+
+// R9: the cloud's answer is read as what it says. The Lingjun interface list
+// reports a life-cycle status in its own vocabulary, which the client translates
+// to the ECS one the controllers act on: Unattached → Available (not attached),
+// Available → InUse (attached and usable), the failure / deleting states →
+// Deleting, anything else unchanged. The translation is tabulated from the code
+// (whatever its form) for every declared input and compared with this table — an
+// interface the cloud reports as unattached must not be recorded as in use, or
+// pods are bound to addresses on an interface that is not there.
+func c02R9(c *Ctx) {
+	p := c.P
+	c.Rule("C02.R9", "DescribeLeniNetworkInterface translates the Lingjun interface status exactly: Unattached→Available, Available→InUse, Create Failed / Deleting / Delete Failed→Deleting, every other value unchanged (tabulated from the code for each declared constant)")
+	fn := p.Func(clientPkg, "OpenAPI.DescribeLeniNetworkInterface")
+	if fn == nil {
+		c.Unres("C02.R9", "OpenAPI.DescribeLeniNetworkInterface", "not found")
+		return
+	}
+	info := fn.Info()
+	// the sink: an lvalue …​.Status that receives an ENIStatus* constant (directly or through a local)
+	var region []ast.Stmt
+	sink := ""
+	statusField := p.Field(clientPkg, "NetworkInterface", "Status")
+	var walk func(k ast.Node, body []ast.Stmt)
+	walk = func(k ast.Node, body []ast.Stmt) {
+		ast.Inspect(k, func(j ast.Node) bool {
+			switch t := j.(type) {
+			case *ast.FuncLit:
+				return false
+			case *ast.RangeStmt:
+				walk(t.Body, t.Body.List)
+				return false
+			case *ast.ForStmt:
+				if t.Cond != nil || t.Init != nil || t.Post != nil {
+					walk(t.Body, t.Body.List)
+					return false
+				}
+			case *ast.AssignStmt:
+				if len(t.Lhs) != 1 || len(t.Rhs) != 1 {
+					return true
+				}
+				if sel, ok := ast.Unparen(t.Lhs[0]).(*ast.SelectorExpr); ok && sink == "" && statusField != nil && fieldOf(info, sel) == statusField {
+					sink, region = exprString(sel), body
+				}
+			}
+			return true
+		})
+	}
+	walk(fn.Decl.Body, fn.Decl.Body.List)
+	if sink == "" {
+		c.Undec("C02.R9", "status translation in DescribeLeniNetworkInterface", p.Pos(fn.Decl), fn.Key(), "an assignment to <interface>.Status", "not found")
+		return
+	}
+	val := func(name string) string {
+		if o, ok := p.LookupObj(clientPkg, name).(*types.Const); ok {
+			return constant.StringVal(o.Val())
+		}
+		return cvUnknown
+	}
+	want := map[string]string{
+		val("LENIStatusUnattached"):   val("ENIStatusAvailable"),
+		val("LENIStatusAvailable"):    val("ENIStatusInUse"),
+		val("LENIStatusCreateFailed"): val("ENIStatusDeleting"),
+		val("LENIStatusDeleting"):     val("ENIStatusDeleting"),
+		val("LENIStatusDeleteFailed"): val("ENIStatusDeleting"),
+		val("LENIStatusExecuting"):    val("LENIStatusExecuting"),
+		"some other status":           "some other status",
+	}
+	var ins []string
+	for k := range want {
+		ins = append(ins, k)
+	}
+	sort.Strings(ins)
+	ce := &constEval{info: info, maps: collectTables(info, fn.Pkg.Syntax)}
+	for _, in := range ins {
+		env, _ := ce.stmts(region, constEnv{sink: in})
+		got := env[sink]
+		shown := got
+		if got == cvUnknown {
+			shown = "<not a constant>"
+		}
+		c.Check(got == want[in], "C02.R9", "status "+strconv.Quote(in)+" is read as "+strconv.Quote(want[in]), p.Pos(region[0]), fn.Key(), strconv.Quote(in)+" → "+strconv.Quote(want[in]), "the code yields "+strconv.Quote(shown))
+	}
+	c.Floor("C02.R9", "inputs tabulated", 7, len(ins))
 }
